@@ -5,6 +5,7 @@ import json, os, sys, time, hashlib
 ROOT = os.path.dirname(os.path.dirname(os.path.abspath(__file__)))
 KNOWN = os.path.join(ROOT, 'known_findings.json')
 EVID = os.path.join(ROOT, 'evidence')
+EVID = os.environ.get('VERIF_EVIDENCE_DIR', EVID)
 REPLAYS = os.path.join(ROOT, 'replays')
 
 
